@@ -27,8 +27,8 @@ ff == ~nf \/ Trail(ps)
 
 Init ==
   /\ fi \in 1..NForests
-  /\ base \in ToSet(Cwds)
   /\ ps \in Strings
+  /\ base \in (IF ps.abs THEN {Cwds[1]} ELSE ToSet(Cwds))     \* an absolute name ignores the base
   /\ nf \in BOOLEAN
   /\ s = IF IsEmptyString(ps) THEN Fail(Start(base, ps), "ENOENT") ELSE Start(base, ps)
   /\ n = 0
